@@ -495,6 +495,13 @@ def scripted_loop(ctx, rng, torch):
         ctx.evaluations += 1
         try:
             labels, logits = eng.transcribe_batch(x, is_cached=True)
+        except (AttributeError, TypeError, NotImplementedError) as e:
+            # the scripted stand-in offers only what transcribe_batch uses today (encode, dec_embeder, pos_encoder, trans_decoder.infer,
+            # dec_out_proj); if a restructured loop needs more, the stand-in is unusable - that says nothing about the property
+            ctx.count('scripted_network_unusable')
+            if 'scripted network unusable' not in ' '.join(ctx.notes):
+                ctx.notes.append('scripted network unusable with this transcribe_batch (%r): loop correspondence skipped, the random-weight oracles remain' % (e,))
+            continue
         except Exception as e:
             ctx.violation('scripted-raises:' + type(e).__name__, 'transcribe_batch raised %r with a scripted network' % (e,), inp)
             continue
